@@ -31,15 +31,15 @@ namespace SimSelect
 /-! ### moving specifications around -/
 
 /-- a `Jump tgt` after the statement: a normal end arrives at `tgt` -/
-theorem post_then_jump {code : Code} {sc : Scope} {below : List CtxState} {fd sd n off tgt : Nat} {p : Pos} {σ : Vm}
-    {r : St × Outcome} (h : StmtPost code sc below fd sd n off σ r)
-    (hj : code[off + n]? = some (CInstr.jump tgt, p)) : StmtPost code sc below fd sd 0 tgt σ r := by
+theorem post_then_jump {W : World} {sc : Scope} {below : List CtxState} {fd sd n off tgt : Nat} {p : Pos} {σ : Vm}
+    {r : St × Outcome} (h : StmtPost W sc below fd sd n off σ r)
+    (hj : W.code[off + n]? = some (CInstr.jump tgt, p)) : StmtPost W sc below fd sd 0 tgt σ r := by
   obtain ⟨s', o⟩ := r
   cases o with
   | normal =>
     obtain ⟨τ, st, hp, hrel, hss⟩ := h
-    have hj' : code[τ.pc]? = some (CInstr.jump tgt, p) := by rw [hp]; exact hj
-    have s1 : Vm.step code τ = .next { τ with pc := tgt } := by simp only [Vm.step, hj']
+    have hj' : W.code[τ.pc]? = some (CInstr.jump tgt, p) := by rw [hp]; exact hj
+    have s1 : Vm.step W.code τ = .next { τ with pc := tgt } := by simp only [Vm.step, hj']
     exact ⟨{ τ with pc := tgt }, st.trans (Steps.one s1), rfl, hrel.setPc tgt,
       hss.trans ⟨rfl, rfl, rfl, rfl, rfl, rfl, id⟩⟩
   | exited => exact h
@@ -50,15 +50,15 @@ theorem post_then_jump {code : Code} {sc : Scope} {below : List CtxState} {fd sd
   | illFormed => exact h
 
 /-- a label after the statement: a normal end steps over it -/
-theorem post_then_label {code : Code} {sc : Scope} {below : List CtxState} {fd sd n off : Nat} {name : String} {p : Pos}
-    {σ : Vm} {r : St × Outcome} (h : StmtPost code sc below fd sd n off σ r)
-    (hl : code[off + n]? = some (CInstr.label name, p)) : StmtPost code sc below fd sd (n + 1) off σ r := by
+theorem post_then_label {W : World} {sc : Scope} {below : List CtxState} {fd sd n off : Nat} {name : String} {p : Pos}
+    {σ : Vm} {r : St × Outcome} (h : StmtPost W sc below fd sd n off σ r)
+    (hl : W.code[off + n]? = some (CInstr.label name, p)) : StmtPost W sc below fd sd (n + 1) off σ r := by
   obtain ⟨s', o⟩ := r
   cases o with
   | normal =>
     obtain ⟨τ, st, hp, hrel, hss⟩ := h
-    have hl' : code[τ.pc]? = some (CInstr.label name, p) := by rw [hp]; exact hl
-    have s1 : Vm.step code τ = .next (Vm.advance τ) := by simp only [Vm.step, hl']
+    have hl' : W.code[τ.pc]? = some (CInstr.label name, p) := by rw [hp]; exact hl
+    have s1 : Vm.step W.code τ = .next (Vm.advance τ) := by simp only [Vm.step, hl']
     exact ⟨Vm.advance τ, st.trans (Steps.one s1), by simp only [Vm.advance, hp]; omega, hrel.advance,
       hss.trans ⟨rfl, rfl, rfl, rfl, rfl, rfl, id⟩⟩
   | exited => exact h
@@ -69,9 +69,9 @@ theorem post_then_label {code : Code} {sc : Scope} {below : List CtxState} {fd s
   | illFormed => exact h
 
 /-- steps that leave the stacks alone may be put in front of a test -/
-theorem condPost_of_steps {code : Code} {sc : Scope} {pre below : List CtxState} {yes no : Nat} {σ τ : Vm}
-    {r : St × Except Outcome Bool} (st : Steps code σ τ) (hs : SameStacks σ τ)
-    (h : CondPost code sc pre below yes no τ r) : CondPost code sc pre below yes no σ r := by
+theorem condPost_of_steps {W : World} {sc : Scope} {pre below : List CtxState} {yes no : Nat} {σ τ : Vm}
+    {r : St × Except Outcome Bool} (st : Steps W.code σ τ) (hs : SameStacks σ τ)
+    (h : CondPost W sc pre below yes no τ r) : CondPost W sc pre below yes no σ r := by
   obtain ⟨s', rv⟩ := r
   cases rv with
   | error o => exact ErrPost.of_steps st h
@@ -96,34 +96,34 @@ theorem truthy_ofBool (b : Bool) : _root_.RbModel.Ref.truthy (ofBool b) = some b
 
 /-- `CopyAToB; PopValueStackIntoA; PushAToValueStack; <comparison>; JumpIfFalse next`: the SELECT subject (top of the
 value stack, kept there) is compared with the CASE item's value in A -/
-theorem cmp_tail (code : Code) (sc : Scope) (below : List CtxState) (s : St) (op : Op) (hop : SelRelOp op) (p : Pos)
+theorem cmp_tail (W : World) (sc : Scope) (below : List CtxState) (s : St) (op : Op) (hop : SelRelOp op) (p : Pos)
     (next q : Nat) (τ : Vm) (subj v : Val) (vs : List Val)
-    (hc : CodeAt code q [(CInstr.copyAToB, p), (CInstr.popA, p), (CInstr.pushA, p), (CInstr.bin op, p),
+    (hc : CodeAt W.code q [(CInstr.copyAToB, p), (CInstr.popA, p), (CInstr.pushA, p), (CInstr.bin op, p),
       (CInstr.jumpIfFalse next, p)])
-    (hpc : τ.pc = q) (ha : τ.regs.a = v) (hv : τ.vals = subj :: vs) (hr : Rel sc [] below s τ) :
-    CondPost code sc [] below (q + 5) next τ (s, Proc.Ref.relTest p op subj v) := by
+    (hpc : τ.pc = q) (ha : τ.regs.a = v) (hv : τ.vals = subj :: vs) (hr : Rel W sc [] below s τ) :
+    CondPost W sc [] below (q + 5) next τ (s, Proc.Ref.relTest p op subj v) := by
   subst hpc
-  have h0 : code[τ.pc]? = some (CInstr.copyAToB, p) := hc.head
-  have h1 : code[τ.pc + 1]? = some (CInstr.popA, p) := hc.tail.head
-  have h2 : code[τ.pc + 1 + 1]? = some (CInstr.pushA, p) := hc.tail.tail.head
-  have h3 : code[τ.pc + 1 + 1 + 1]? = some (CInstr.bin op, p) := hc.tail.tail.tail.head
-  have h4 : code[τ.pc + 1 + 1 + 1 + 1]? = some (CInstr.jumpIfFalse next, p) := hc.tail.tail.tail.tail.head
+  have h0 : W.code[τ.pc]? = some (CInstr.copyAToB, p) := hc.head
+  have h1 : W.code[τ.pc + 1]? = some (CInstr.popA, p) := hc.tail.head
+  have h2 : W.code[τ.pc + 1 + 1]? = some (CInstr.pushA, p) := hc.tail.tail.head
+  have h3 : W.code[τ.pc + 1 + 1 + 1]? = some (CInstr.bin op, p) := hc.tail.tail.tail.head
+  have h4 : W.code[τ.pc + 1 + 1 + 1 + 1]? = some (CInstr.jumpIfFalse next, p) := hc.tail.tail.tail.tail.head
   let τ1 : Vm := Vm.advance { τ with regs := { τ.regs with b := τ.regs.a } }
   let τ2 : Vm := Vm.advance { Vm.setA τ1 subj with vals := vs }
   let τ3 : Vm := Vm.advance { τ2 with vals := subj :: vs }
-  have s1 : Vm.step code τ = .next τ1 := by simp only [Vm.step, h0]; rfl
-  have s2 : Vm.step code τ1 = .next τ2 := by simp only [Vm.step, τ1, Vm.advance, h1, hv]; rfl
-  have s3 : Vm.step code τ2 = .next τ3 := by simp only [Vm.step, τ2, τ1, Vm.advance, Vm.setA, h2]; rfl
-  have s4 : Vm.step code τ3 = Vm.resA τ3 p (Vm.binInstr op subj v) := by
+  have s1 : Vm.step W.code τ = .next τ1 := by simp only [Vm.step, h0]; rfl
+  have s2 : Vm.step W.code τ1 = .next τ2 := by simp only [Vm.step, τ1, Vm.advance, h1, hv]; rfl
+  have s3 : Vm.step W.code τ2 = .next τ3 := by simp only [Vm.step, τ2, τ1, Vm.advance, Vm.setA, h2]; rfl
+  have s4 : Vm.step W.code τ3 = Vm.resA τ3 p (Vm.binInstr op subj v) := by
     simp only [Vm.step, τ3, τ2, τ1, Vm.advance, Vm.setA, h3, ha]
-  have st : Steps code τ τ3 := Steps.cons s1 (Steps.cons s2 (Steps.one s3))
+  have st : Steps W.code τ τ3 := Steps.cons s1 (Steps.cons s2 (Steps.one s3))
   rw [binInstr_rel hop] at s4
   simp only [Proc.Ref.relTest]
   cases ht : tryCmp subj v with
   | ok o =>
     let τ4 : Vm := Vm.advance (Vm.setA τ3 (ofBool (relHolds op o)))
-    have s4' : Vm.step code τ3 = .next τ4 := by rw [s4, ht]; rfl
-    have hj : code[τ4.pc]? = some (CInstr.jumpIfFalse next, p) := h4
+    have s4' : Vm.step W.code τ3 = .next τ4 := by rw [s4, ht]; rfl
+    have hj : W.code[τ4.pc]? = some (CInstr.jumpIfFalse next, p) := h4
     have ht4 : _root_.RbModel.Ref.truthy τ4.regs.a = some (relHolds op o) := truthy_ofBool _
     dsimp only
     cases hb : relHolds op o with
@@ -188,8 +188,8 @@ theorem item_correct (W : World) (f : Nat) (hE : ExprIH W f) (sc : Scope) (below
     (hop : SelRelOp op) (p : Pos) (next off : Nat) (s : St) (σ : Vm) (subj : Val) (vs : List Val) (e : Proc.Expr)
     (hc : CodeAt W.code off (compileExpr W.lay off e ++ [(CInstr.copyAToB, p), (CInstr.popA, p), (CInstr.pushA, p),
       (CInstr.bin op, p), (CInstr.jumpIfFalse next, p)]))
-    (hpc : σ.pc = off) (hv : σ.vals = subj :: vs) (hr : Rel sc [] below s σ) (hw : EWf W.sg sc.slots e) :
-    CondPost W.code sc [] below (off + sizeExpr e + 5) next σ (itemTest W.P f p op subj e s) := by
+    (hpc : σ.pc = off) (hv : σ.vals = subj :: vs) (hr : Rel W sc [] below s σ) (hw : EWf W.sg sc.slots e) :
+    CondPost W sc [] below (off + sizeExpr e + 5) next σ (itemTest W.P f p op subj e s) := by
   have he := hE sc e off [] below s σ hc.append_left hpc hr hw
   simp only [itemTest]
   generalize Proc.Ref.eval W.P f e s = r at he ⊢
@@ -202,7 +202,7 @@ theorem item_correct (W : World) (f : Nat) (hE : ExprIH W f) (sc : Scope) (below
         (CInstr.bin op, p), (CInstr.jumpIfFalse next, p)] := by
       have := hc.append_right
       rwa [len_expr] at this
-    have := cmp_tail W.code sc below s1 op hop p next (off + sizeExpr e) τ subj v vs hct hp hav
+    have := cmp_tail W sc below s1 op hop p next (off + sizeExpr e) τ subj v vs hct hp hav
       (by rw [hss.vals]; exact hv) hrel
     exact condPost_of_steps st hss this
 
@@ -210,8 +210,8 @@ theorem item_correct (W : World) (f : Nat) (hE : ExprIH W f) (sc : Scope) (below
 theorem caseExpr_correct (W : World) (g : Nat) (ih : IHle W g) (sc : Scope) (below : List CtxState) (p : Pos)
     (next off : Nat) (s : St) (σ : Vm) (subj : Val) (vs : List Val) (c : CaseExpr)
     (hc : CodeAt W.code off (compileCaseExpr W.lay p next off c))
-    (hpc : σ.pc = off) (hv : σ.vals = subj :: vs) (hr : Rel sc [] below s σ) (hw : CaseWf W.sg sc.slots c) :
-    CondPost W.code sc [] below (off + sizeCaseExpr c) next σ (Proc.Ref.caseMatches W.P g p subj c s) := by
+    (hpc : σ.pc = off) (hv : σ.vals = subj :: vs) (hr : Rel W sc [] below s σ) (hw : CaseWf W.sg sc.slots c) :
+    CondPost W sc [] below (off + sizeCaseExpr c) next σ (Proc.Ref.caseMatches W.P g p subj c s) := by
   cases g with
   | zero => simp only [Proc.Ref.caseMatches, CondPost, ErrPost]
   | succ f =>
@@ -267,8 +267,8 @@ theorem conds_correct (W : World) (sc : Scope) (below : List CtxState) (p : Pos)
     (bi nextCase stmts : Nat) (subj : Val) (vs : List Val) :
     ∀ (conds : List CaseExpr) (g : Nat) (off ei : Nat) (s : St) (σ : Vm), IHle W g → conds ≠ [] →
       CodeAt W.code off (compileConds W.lay p sfx bi nextCase stmts off ei conds) → stmts = off + sizeConds conds →
-      σ.pc = off → σ.vals = subj :: vs → Rel sc [] below s σ → CondsWf W.sg sc.slots conds →
-      CondPost W.code sc [] below stmts nextCase σ (Proc.Ref.anyMatches W.P g p subj conds s)
+      σ.pc = off → σ.vals = subj :: vs → Rel W sc [] below s σ → CondsWf W.sg sc.slots conds →
+      CondPost W sc [] below stmts nextCase σ (Proc.Ref.anyMatches W.P g p subj conds s)
   | [], _, _, _, _, _, _, hne, _, _, _, _, _, _ => absurd rfl hne
   | [c], g, off, ei, s, σ, ih, _, hc, hst, hpc, hv, hr, hw => by
     cases g with
@@ -344,12 +344,12 @@ at `endOff`; `htail` says what happens once all blocks have been tried and contr
 counts this SELECT. -/
 theorem cases_correct (W : World) (fuel : Nat) (ih : IHle W fuel) (sc : Scope) (below : List CtxState) (sfx : String)
     (fd sd : Nat) (p : Pos) (endOff elseOff : Nat) (subj : Val) (vs : List Val) (tail : Cases)
-    (htail : ∀ f, f ≤ fuel → ∀ (s : St) (σ : Vm), σ.pc = elseOff → Rel sc [] below s σ → σ.vals = subj :: vs →
-      ActInv sc fd sd σ → StmtPost W.code sc below fd sd 0 endOff σ (Proc.Ref.execCases W.P f p subj tail s)) :
+    (htail : ∀ f, f ≤ fuel → ∀ (s : St) (σ : Vm), σ.pc = elseOff → Rel W sc [] below s σ → σ.vals = subj :: vs →
+      ActInv sc fd sd σ → StmtPost W sc below fd sd 0 endOff σ (Proc.Ref.execCases W.P f p subj tail s)) :
     ∀ (cs : SCases) (f : Nat), f ≤ fuel → ∀ (off i : Nat) (s : St) (σ : Vm),
       CodeAt W.code off (compileCases W.lay sfx fd sd p endOff off i cs) → off + sizeCases fd sd cs = elseOff →
-      σ.pc = off → Rel sc [] below s σ → σ.vals = subj :: vs → WfCases W.sg sc cs → ActInv sc fd sd σ →
-      StmtPost W.code sc below fd sd 0 endOff σ (Proc.Ref.execCases W.P f p subj (desugarCases cs tail) s)
+      σ.pc = off → Rel W sc [] below s σ → σ.vals = subj :: vs → WfCases W.sg sc cs → ActInv sc fd sd σ →
+      StmtPost W sc below fd sd 0 endOff σ (Proc.Ref.execCases W.P f p subj (desugarCases cs tail) s)
   | .nil, f, hf, off, i, s, σ, hc, he, hpc, hr, hv, hw, ha => by
     simp only [desugarCases]
     simp only [sizeCases] at he
@@ -370,8 +370,8 @@ theorem cases_correct (W : World) (fuel : Nat) (ih : IHle W fuel) (sc : Scope) (
           (if conds.length > 1 then [(CInstr.label (labelName ("case-statements" ++ toString i) p sfx), p)]
             else []) = L ∧
           L.length = m ∧
-          (∀ q, CodeAt W.code q L → ∀ (s' : St) (τ : Vm), τ.pc = q → Rel sc [] below s' τ →
-            ∃ τ', Steps W.code τ τ' ∧ τ'.pc = q + m ∧ Rel sc [] below s' τ' ∧ SameStacks τ τ') := by
+          (∀ q, CodeAt W.code q L → ∀ (s' : St) (τ : Vm), τ.pc = q → Rel W sc [] below s' τ →
+            ∃ τ', Steps W.code τ τ' ∧ τ'.pc = q + m ∧ Rel W sc [] below s' τ' ∧ SameStacks τ τ') := by
         by_cases hmul : conds.length > 1
         · refine ⟨1, [(CInstr.label (labelName ("case-statements" ++ toString i) p sfx), p)], by simp [hmul],
             by simp [hmul], rfl, ?_⟩
@@ -442,8 +442,8 @@ theorem case_select (W : World) (fuel : Nat) (ih : IHle W fuel) (e : Proc.Expr) 
     (els : SStmt) (p : Pos)
     (sc : Scope) (sfx : String) (fd sd off : Nat) (below : List CtxState) (s : St) (σ : Vm)
     (hc : CodeAt W.code off (compileStmt W.lay sfx fd sd off (.select e cases hasElse els p))) (hpc : σ.pc = off)
-    (hr : Rel sc [] below s σ) (hw : Wf W.sg sc (.select e cases hasElse els p)) (ha : ActInv sc fd sd σ) :
-    StmtPost W.code sc below fd sd (sizeStmt fd sd (.select e cases hasElse els p)) off σ
+    (hr : Rel W sc [] below s σ) (hw : Wf W.sg sc (.select e cases hasElse els p)) (ha : ActInv sc fd sd σ) :
+    StmtPost W sc below fd sd (sizeStmt fd sd (.select e cases hasElse els p)) off σ
       (Proc.Ref.exec W.P (fuel + 1) (desugar (.select e cases hasElse els p)) s) := by
   simp only [compileStmt] at hc
   simp only [Wf] at hw
@@ -468,8 +468,8 @@ theorem case_select (W : World) (fuel : Nat) (ih : IHle W fuel) (e : Proc.Expr) 
         E.length = k ∧
         (CodeAt W.code (off + sizeExpr e + 1 + 3 + sizeCases fd (sd + 1) cases) E →
           ∀ f, f ≤ fuel → ∀ (s' : St) (υ : Vm), υ.pc = off + sizeExpr e + 1 + 3 + sizeCases fd (sd + 1) cases →
-            Rel sc [] below s' υ → υ.vals = τ.regs.a :: τ.vals → ActInv sc fd (sd + 1) υ →
-            StmtPost W.code sc below fd (sd + 1) 0 (off + sizeExpr e + 1 + 3 + sizeCases fd (sd + 1) cases + k) υ
+            Rel W sc [] below s' υ → υ.vals = τ.regs.a :: τ.vals → ActInv sc fd (sd + 1) υ →
+            StmtPost W sc below fd (sd + 1) 0 (off + sizeExpr e + 1 + 3 + sizeCases fd (sd + 1) cases + k) υ
               (Proc.Ref.execCases W.P f p τ.regs.a T s')) := by
       cases hasElse with
       | false =>
@@ -553,7 +553,7 @@ theorem case_select (W : World) (fuel : Nat) (ih : IHle W fuel) (e : Proc.Expr) 
     have s4 : Vm.step W.code σ3 = .next σ4 := by
       have h : W.code[σ3.pc]? = some (CInstr.label (labelName "select-begin" p sfx), p) := hlb
       simp only [Vm.step, h] <;> rfl
-    have hr4 : Rel sc [] below s1 σ4 := hrel.same rfl rfl rfl rfl rfl rfl
+    have hr4 : Rel W sc [] below s1 σ4 := hrel.same rfl rfl rfl rfl rfl rfl
     have hv4 : σ4.vals = τ.regs.a :: σ.vals := by
       show τ.regs.a :: τ.vals = τ.regs.a :: σ.vals
       rw [hss.vals]
